@@ -66,6 +66,8 @@ def judge(case, part):
     decls = readermachine.decls_for(config)
     header, limit, bad_at, bad_kind = case["header"], case["limit"], case["bad_at"], case["bad_kind"]
     table = build_table(header, case["rows"], bad_at, bad_kind, case.get("multiline_header", False), case.get("allowed", False), case.get("blank_header", False))
+    if case.get("short_by"):
+        table = table[: header - case["short_by"]]  # the data end inside the header: no data rows at all
     if case.get("allowed"):
         config["extra"] = ALLOWED
     if case.get("checks"):
@@ -225,6 +227,10 @@ def enumerate_cases(preset, header, max_rows=6):
                     if preset == "fixed" and bad_at <= header and kind == "cell2":
                         pass
                     cases.append({"preset": preset, "header": header, "rows": rows, "limit": limit, "bad_at": bad_at, "bad_kind": kind})
+    # data that end inside the header (fewer rows than the Header property says): nothing to validate, nothing to return
+    for short_by in range(1, header + 1):
+        for limit in [None] + list(range(0, header + 2)):
+            cases.append({"preset": preset, "header": header, "rows": 0, "limit": limit, "bad_at": None, "bad_kind": None, "short_by": short_by})
     # the same product under a CID with an IsUnique and a DistinctCount check: a repeated key as the bad row, and tables whose end-of-data verdict fails
     with_checks = [dict(case, checks=True, bad_kind="dup" if case["bad_kind"] == "cell2" else case["bad_kind"]) for case in cases if case["rows"] <= 5 and case["bad_kind"] in (None, "cell", "cell2")]
     if preset in ("ods", "excel"):
